@@ -56,18 +56,26 @@ def width_of(dims, what):
     return num(dims[0][0]) + 1
 
 
+def sized(e, what="number"):
+    """the value a literal DENOTES: a sized literal (`3'd8`) holds its digits modulo 2^size, as SystemVerilog truncates it"""
+    v = num(e, what)
+    if e[0] == "lit" and e[1]:
+        v %= 1 << e[1]
+    return v
+
+
 def idval(e, what):
     """id value: number | id_t'(n) | '{x:..,y:..,port_id:..}"""
     if e[0] == "cast":
         if e[1] != "id_t":
             raise SvError(f"{what}: unexpected cast {e[1]}")
-        return num(e[2])
+        return sized(e[2])
     if e[0] == "struct":
         d = dict(e[1])
         if set(d) != {"x", "y", "port_id"}:
             raise SvError(f"{what}: unexpected id fields {sorted(d)}")
-        return [num(d["x"]), num(d["y"]), num(d["port_id"])]
-    return num(e, what)
+        return [sized(d["x"]), sized(d["y"]), sized(d["port_id"])]
+    return sized(e, what)
 
 
 def read(pkg_text, top_text):
